@@ -255,15 +255,15 @@ Proof.
   cbn. rewrite N.mul_1_r. reflexivity.
 Qed.
 
-Lemma chunkSizeLimit_val : chunkSizeLimit = 1048576.
-Proof. reflexivity. Qed.
-
+(* no lemma here evaluates sha2pc_chunkSizeLimit: the limit is whatever the
+   regenerated Gen/Consts.v says; everything that needs "the encoders' chunks
+   fit the limit" takes it from [chunk_limit_ok] below *)
 Lemma read_chunk_write_chunk data rest :
-  N.of_nat (length data) <= chunkSizeLimit -> data ++ rest <> [] ->
+  N.of_nat (length data) <= chunkSizeLimit -> N.of_nat (length data) < 2 ^ 64 -> data ++ rest <> [] ->
   read_chunk (write_chunk data ++ rest) = Ok (data, rest).
 Proof.
-  intros Hl Hne. unfold read_chunk, write_chunk. rewrite <- app_assoc.
-  rewrite read_uvarint_put by (rewrite chunkSizeLimit_val in Hl; change (2 ^ 64) with 18446744073709551616; lia).
+  intros Hl H64 Hne. unfold read_chunk, write_chunk. rewrite <- app_assoc.
+  rewrite read_uvarint_put by exact H64.
   cbn [bind].
   replace (length (put_uvarint (N.of_nat (length data)) ++ data ++ rest) - length (data ++ rest))%nat
     with (length (put_uvarint (N.of_nat (length data)))) by (rewrite (app_length (put_uvarint _)); lia).
@@ -324,15 +324,45 @@ Proof. unfold check_name. destruct c; reflexivity. Qed.
 Lemma write_chunk_name c : write_chunk (curve_name c) = 5 :: curve_name c.
 Proof. destruct c; reflexivity. Qed.
 
-Lemma read_chunk_name c rest : read_chunk (write_chunk (curve_name c) ++ rest) = Ok (curve_name c, rest).
-Proof.
-  apply read_chunk_write_chunk.
-  - rewrite curve_name_length, chunkSizeLimit_val. lia.
-  - destruct c; discriminate.
-Qed.
-
 Lemma byteLen_pos c : (28 <= byteLen c <= 66)%nat.
 Proof. destruct c; cbv; lia. Qed.
+
+(* ---- the chunk-size limit.  The largest chunk an encoder writes for curve c
+   is the evaluator session's choice bundle: 6 + 2*byteLen + 256*byteLen + 32
+   bytes (the garbler session's is 6 + 5*byteLen, the curve name 5).
+   readChunk refuses chunks above chunkSizeLimit, writeChunk has no bound: the
+   encodings round-trip iff the limit covers these sizes on every supported
+   curve.  [chunk_limit_ok] is a hypothesis of every theorem below that needs
+   it; it is discharged for the regenerated constant, by computation, only in
+   Props/C18.v (C18_limit_covers_all_encodings), so that a limit that is too
+   small breaks exactly that obligation. *)
+Definition max_chunk (c : curve) : nat := (38 + 258 * byteLen c)%nat.
+Definition chunk_limit_ok : Prop := forall c, N.of_nat (max_chunk c) <= chunkSizeLimit.
+Definition chunk_limit_check : bool :=
+  forallb (fun c => N.of_nat (max_chunk c) <=? chunkSizeLimit) [P224; P256; P384; P521].
+Lemma chunk_limit_ok_of_check : chunk_limit_check = true -> chunk_limit_ok.
+Proof.
+  unfold chunk_limit_check. intros H c. rewrite forallb_forall in H.
+  apply N.leb_le. apply H. destruct c; cbn; auto.
+Qed.
+
+Section LimitOK.
+Hypothesis limit_ok : chunk_limit_ok.
+
+Lemma chunk_fits n c : (n <= max_chunk c)%nat -> N.of_nat n <= chunkSizeLimit /\ N.of_nat n < 2 ^ 64.
+Proof.
+  intros H. pose proof (limit_ok c) as L. pose proof (byteLen_pos c) as B. unfold max_chunk in *.
+  change (2 ^ 64) with 18446744073709551616. split; lia.
+Qed.
+
+Lemma read_chunk_name c rest : read_chunk (write_chunk (curve_name c) ++ rest) = Ok (curve_name c, rest).
+Proof.
+  destruct (chunk_fits (length (curve_name c)) c) as [A B].
+  { rewrite curve_name_length. unfold max_chunk. lia. }
+  apply read_chunk_write_chunk; [exact A|exact B|].
+  destruct c; discriminate.
+Qed.
+
 
 (* ====================================================================== *)
 (* Round 1                                                                 *)
@@ -388,8 +418,8 @@ Proof.
     rewrite bytes_eqb_refl. cbn [guard bind].
     rewrite read_full_app by apply be_s_length. cbn [bind].
     rewrite <- (app_nil_r (write_chunk inner)).
-    rewrite read_chunk_write_chunk.
-    2:{ rewrite Li, chunkSizeLimit_val. lia. }
+    destruct (chunk_fits (length inner) c) as [CA CB]; [rewrite Li; unfold max_chunk; lia|].
+    rewrite read_chunk_write_chunk; [|exact CA|exact CB|].
     2:{ rewrite app_nil_r. intros E. rewrite E in Li. cbn in Li. lia. }
     cbn [bind no_trailing length Nat.eqb guard]. unfold decodeCOSenderSetup, inner. rewrite read_chunk_name. cbn [bind].
     rewrite bytes_eqb_refl. cbn [guard bind].
@@ -450,8 +480,8 @@ Proof.
     rewrite bytes_eqb_refl. cbn [guard bind].
     rewrite read_full_app by apply be_s_length. cbn [bind].
     rewrite <- (app_nil_r (write_chunk inner)).
-    rewrite read_chunk_write_chunk.
-    2:{ rewrite Li, chunkSizeLimit_val. lia. }
+    destruct (chunk_fits (length inner) c) as [CA CB]; [rewrite Li; unfold max_chunk; lia|].
+    rewrite read_chunk_write_chunk; [|exact CA|exact CB|].
     2:{ rewrite app_nil_r. intros E. rewrite E in Li. cbn in Li. lia. }
     cbn [bind no_trailing length Nat.eqb guard]. unfold decodeChoiceBundle, inner. rewrite read_chunk_name. cbn [bind].
     rewrite bytes_eqb_refl. cbn [guard bind].
@@ -865,8 +895,9 @@ Proof.
   pose proof (byteLen_pos c) as Hbl.
   unfold DecodeGarblerSession. rewrite read_full_app by reflexivity. cbn [bind].
   rewrite bytes_eqb_refl. cbn [guard bind]. rewrite read_full_app by apply be_s_length. cbn [bind].
-  rewrite <- (app_nil_r (write_chunk inner)). rewrite read_chunk_write_chunk.
-  2:{ rewrite Li, chunkSizeLimit_val. lia. }
+  rewrite <- (app_nil_r (write_chunk inner)).
+  destruct (chunk_fits (length inner) c) as [CA CB]; [rewrite Li; unfold max_chunk; lia|].
+  rewrite read_chunk_write_chunk; [|exact CA|exact CB|].
   2:{ rewrite app_nil_r. intros E. rewrite E in Li. cbn in Li. lia. }
   cbn [bind no_trailing length Nat.eqb guard]. unfold decodeCOSenderSetup, inner. rewrite read_chunk_name. cbn [bind].
   rewrite bytes_eqb_neq; [reflexivity|]. intros E. apply Hc. apply curve_name_inj. exact E.
@@ -875,30 +906,25 @@ Qed.
 Theorem reject_curve_es c c' s b : c <> c' -> wf_es c s -> EncodeEvaluatorSession c s = Ok b ->
   DecodeEvaluatorSession c' b = Err.
 Proof.
-  intros Hc W. destruct (es_roundtrip c s W) as (b' & E & _ & Lb'). rewrite E. intros E'. apply Ok_inj in E'. subst b.
-  revert E. destruct W as (Hs & Hn & Hx & Hy & Ls & Fs & Lb). destruct s as [sid name ax ay scalars bits].
+  intros Hc W. destruct s as [sid name ax ay scalars bits]. destruct W as (Hs & Hn & Hx & Hy & Ls & Fs & Lb).
   cbn [es_sid es_name es_ax es_ay es_scalars es_bits] in *. subst name.
-  unfold EncodeEvaluatorSession. destruct (encodeChoiceBundle c _) as [inner| |] eqn:Ei; cbn [bind]; try discriminate.
-  intros E. apply Ok_inj in E. subst b'.
-  assert (Hin : exists tl, inner = write_chunk (curve_name c) ++ tl).
-  { revert Ei. unfold encodeChoiceBundle. cbn [es_sid es_name es_ax es_ay es_scalars es_bits].
-    rewrite check_name_ok. cbn [bind].
-    repeat match goal with |- context [bind ?r _] => destruct r; cbn [bind]; try discriminate end.
-    intros E. apply Ok_inj in E. subst inner. eexists. reflexivity. }
-  destruct Hin as (tl & ->).
-  assert (Li : N.of_nat (length (write_chunk (curve_name c) ++ tl)) <= chunkSizeLimit).
-  { rewrite !app_length, be_s_length in Lb'. unfold write_chunk at 1 in Lb'. rewrite app_length in Lb'.
-    change (length magicEvalSession) with 2%nat in Lb'.
-    rewrite chunkSizeLimit_val.
-    remember (length (write_chunk (curve_name c) ++ tl)) as L eqn:EL.
-    remember (length (put_uvarint (N.of_nat L))) as U eqn:EU. clear EL EU.
-    unfold es_len in Lb'. pose proof (byteLen_pos c) as Hb.
-    remember (byteLen c) as bl eqn:Ebl. clear Ebl. destruct c; lia. }
+  unfold EncodeEvaluatorSession, encodeChoiceBundle. cbn [es_sid es_name es_ax es_ay es_scalars es_bits].
+  rewrite check_name_ok. cbn [bind].
+  rewrite write_fixed_list_ok by (repeat constructor; assumption). cbn [bind].
+  rewrite Ls, Lb, Nat.eqb_refl. cbn [guard bind].
+  rewrite write_fixed_list_ok by exact Fs. cbn [bind].
+  pose proof (sign_bytes_length bits Lb) as Lsig. rewrite Lsig, Nat.eqb_refl. cbn [guard bind].
+  set (tl := flat_map (be_s (byteLen c)) [ax; ay] ++ flat_map (be_s (byteLen c)) scalars ++ bitsToBytesLittle bits).
+  intros E. apply Ok_inj in E. subst b.
+  assert (Li : length (write_chunk (curve_name c) ++ tl) = max_chunk c).
+  { unfold tl, max_chunk. rewrite write_chunk_name, !app_length, !flat_map_be_s_length, Ls, Lsig.
+    cbn [length]. rewrite curve_name_length.
+    change evaluatorCiphertextCount with 256%nat. change evaluatorChoiceSignBytes with 32%nat. lia. }
+  destruct (chunk_fits _ c (Nat.eq_le_incl _ _ Li)) as [CA CB].
   unfold DecodeEvaluatorSession. rewrite read_full_app by reflexivity. cbn [bind].
   rewrite bytes_eqb_refl. cbn [guard bind]. rewrite read_full_app by apply be_s_length. cbn [bind].
-  rewrite <- (app_nil_r (write_chunk (write_chunk (curve_name c) ++ tl))). rewrite read_chunk_write_chunk.
-  2:{ exact Li. }
-  2:{ rewrite write_chunk_name. discriminate. }
+  rewrite <- (app_nil_r (write_chunk (write_chunk (curve_name c) ++ tl))).
+  rewrite read_chunk_write_chunk; [|exact CA|exact CB|rewrite write_chunk_name; discriminate].
   cbn [bind no_trailing length Nat.eqb guard]. unfold decodeChoiceBundle. rewrite read_chunk_name. cbn [bind].
   rewrite bytes_eqb_neq; [reflexivity|]. intros E. apply Hc. apply curve_name_inj. exact E.
 Qed.
@@ -2293,3 +2319,5 @@ Example prefix_boundary_values_rejected :
   read_uvarint ([255; 255; 255; 255; 255; 255; 255; 255; 255; 2] ++ [9]) = Err /\
   read_uvarint (repeat 128 10 ++ [0]) = Err.
 Proof. vm_compute. repeat split; reflexivity. Qed.
+
+End LimitOK.
